@@ -134,7 +134,7 @@ structure Config where
   births : List (List Nat) -- per step number, per channel: simulants created by WPop's listener
   akPerPhase : Bool        -- the CRN-initialising draw uses `key<site>` instead of `key` as additional key
   order : List Nat         -- component order (= setup order = registration order): 0 WPop, 1 WMort, 2 WDisease,
-                           --   3 WObserver, 4 / 5 / 6 WMod 0 / 1 / 2
+                           --   3 WObserver, 4 / 5 / 6 WMod 0 / 1 / 2, 7 WStep (`Model/WholeDt.lean`)
   birthPrio : List Nat     -- priority of WPop's listener on each of the four channels
   mortPhase : Nat
   mortPrio : Nat
@@ -647,7 +647,7 @@ def Config.extValid (cfg : Config) : Bool :=
 else; the harness generates only such configurations) -/
 def Config.valid (cfg : Config) : Bool :=
   decide (0 < cfg.step) && decide (0 < blockSize cfg) && decide (cfg.sexW ≤ 16) && decide (cfg.keyBits ≤ 53)
-  && cfg.keyCols.all (fun c => decide (c < 2)) && cfg.order.all (fun c => decide (c < 7)) && decide cfg.order.Nodup
+  && cfg.keyCols.all (fun c => decide (c < 2)) && cfg.order.all (fun c => decide (c < 8)) && decide cfg.order.Nodup
   && decide (cfg.birthPrio.length = 4) && cfg.birthPrio.all (fun p => decide (p < 10))
   && decide (cfg.mortPrio < 10) && decide (cfg.disPrio < 10) && decide (cfg.mortPhase < 4) && decide (cfg.disPhase < 4)
   && decide (0 < cfg.states.length) && decide (cfg.initW.length = 2) && decide (cfg.mortP.length = 2)
